@@ -115,6 +115,17 @@ type Graph struct {
 	// (A literal that reads a local of the function creating it is left out: the VM does not implement
 	// captured variables - open finding KF-vm-closure-capture of C01/C02/C04, not a matter of modules.)
 	CbForm string `json:"cb_form,omitempty"`
+	// Shadow: every function (and the entry's main) has, while it calls other functions, a variable of
+	// its own named like each global its module can see (own and imported ones), holding the text
+	// `<module>.<function>#<name>`: "let" a local declared at the top of the body (after the function
+	// has written to the globals), "param" a parameter (the caller passes the text; functions handed
+	// out as values of type `fn() -> str` and main use a local instead), "block" a local of a nested
+	// block around all calls and reads; after the block the function reads the globals once more.
+	// Such a variable belongs to one activation of one function: whatever runs meanwhile - a function of
+	// another module, or a function of the same module that another module calls back through a function
+	// value while this frame is still active - reads and writes the globals of its defining module, and
+	// the text `m.f#v` can only appear in the result of m.f itself.
+	Shadow string `json:"shadow,omitempty"`
 	// Family names the enumerator that produced the graph (evidence only).
 	Family string `json:"family,omitempty"`
 }
@@ -212,6 +223,50 @@ func (g *Graph) cbArg(target Item, from *Item) string {
 		return "cb"
 	}
 	return g.fnValue()
+}
+
+// shadowNames lists the globals module mod can see (own and imported), by the name they have there.
+func (lk *Link) shadowNames(g *Graph, mod string) []string {
+	if g.Shadow == "" {
+		return nil
+	}
+	var out []string
+	for _, k := range lk.visSeq[mod] {
+		if b := lk.vis[mod][k]; b.Item.Kind == "let" {
+			out = append(out, b.Item.Name)
+		}
+	}
+	return out
+}
+
+// shadowForm says how function it holds its shadowing variables ("" for functions that have none).
+func (g *Graph) shadowForm(it Item) string {
+	if g.Shadow == "" || it.Kind != "fn" || it.Maker {
+		return ""
+	}
+	if g.Shadow == "param" && (it.Name == "main" || g.isCallback(it)) {
+		return "let"
+	}
+	return g.Shadow
+}
+
+// localText is the value of the variable of function fn of module mod that shadows global name.
+func localText(mod, fn, name string) string { return mod + "." + fn + "#" + name }
+
+// callArgs is the argument list of a call of the function target (as bound in the calling module)
+// from inside function from (nil: from the entry's main function): the function value handed down
+// and the texts for the target's shadowing parameters.
+func (g *Graph) callArgs(lk *Link, target binding, from *Item) string {
+	var args []string
+	if a := g.cbArg(target.Item, from); a != "" {
+		args = append(args, a)
+	}
+	if target.Item.Kind == "fn" && g.shadowForm(target.Item) == "param" {
+		for _, n := range lk.shadowNames(g, target.Origin) {
+			args = append(args, "\""+localText(target.Origin, target.Item.Name, n)+"\"")
+		}
+	}
+	return strings.Join(args, ", ")
 }
 
 func (m *Mod) edgeFn() *Item {
@@ -327,6 +382,18 @@ func Render(g *Graph, lk *Link) Rendered {
 			if g.handsDown() && it.Edge {
 				params = append(params, "cb: fn() -> str")
 			}
+			form := g.shadowForm(it)
+			shadows := lk.shadowNames(g, m.Name)
+			if form == "" {
+				shadows = nil
+			}
+			isShadow := map[string]bool{}
+			for _, n := range shadows {
+				isShadow[n] = true
+				if form == "param" {
+					params = append(params, n+": str")
+				}
+			}
 			emit(fmt.Sprintf("%sfn %s(%s) -> str {", pub, it.Name, strings.Join(params, ", ")))
 			for _, w := range lk.writes(g, m.Name, it) {
 				emit(fmt.Sprintf("    %s = %s + \"'\";", w, w))
@@ -335,38 +402,66 @@ func Render(g *Graph, lk *Link) Rendered {
 				acc := singAccess(direct, s.Name)
 				emit(fmt.Sprintf("    %s.s = %s.s + \"%s.%s;\";", acc, acc, m.Name, it.Name))
 			}
-			var parts []string
-			for i, r := range lk.refs(g, m.Name, it) {
+			refs := lk.refs(g, m.Name, it)
+			// in (indentation) and set (how a result variable gets its value): form "block" declares the
+			// result variables before the block that holds the shadowing locals and assigns inside
+			in, set := "    ", "let "
+			if form == "block" && len(shadows) > 0 {
+				for i := range refs {
+					emit(fmt.Sprintf("    let q_%s_%d = \"\";", it.Name, i))
+				}
+				emit("    {")
+				in, set = "        ", ""
+			}
+			if form == "let" || form == "block" {
+				for _, n := range shadows {
+					emit(fmt.Sprintf("%slet %s = \"%s\";", in, n, localText(m.Name, it.Name, n)))
+				}
+			}
+			var parts, again []string
+			for i, r := range refs {
 				q := fmt.Sprintf("q_%s_%d", it.Name, i)
 				switch {
 				case r.Item.Maker:
 					// the function value a maker returns is called here, in the module of this function
 					callee := r.Item.Name
 					if g.ViaValue {
-						emit(fmt.Sprintf("    let m%s = %s;", q, callee))
+						emit(fmt.Sprintf("%slet m%s = %s;", in, q, callee))
 						callee = "m" + q
 					}
-					emit(fmt.Sprintf("    let h%s = %s();", q, callee))
-					emit(fmt.Sprintf("    let %s = %s;", q, g.caught("h"+q+"()")))
+					emit(fmt.Sprintf("%slet h%s = %s();", in, q, callee))
+					emit(fmt.Sprintf("%s%s%s = %s;", in, set, q, g.caught("h"+q+"()")))
 					parts = append(parts, q)
 					continue
 				}
 				switch r.Item.Kind {
 				case "fn", "cb":
 					// (a ref of kind cb is the call of the function value the edge function received)
-					callee, arg := r.Item.Name, g.cbArg(r.Item, &it)
+					callee, arg := r.Item.Name, g.callArgs(lk, r, &it)
 					if g.ViaValue {
-						emit(fmt.Sprintf("    let h%s = %s;", q, callee))
+						emit(fmt.Sprintf("%slet h%s = %s;", in, q, callee))
 						callee = "h" + q
 					}
-					emit(fmt.Sprintf("    let %s = %s;", q, g.caught(callee+"("+arg+")")))
+					emit(fmt.Sprintf("%s%s%s = %s;", in, set, q, g.caught(callee+"("+arg+")")))
 				case "let":
-					emit(fmt.Sprintf("    let %s = %s;", q, r.Item.Name))
+					emit(fmt.Sprintf("%s%s%s = %s;", in, set, q, r.Item.Name))
+					if set == "" && isShadow[r.Item.Name] {
+						again = append(again, r.Item.Name)
+					}
 				case "type":
-					emit(fmt.Sprintf("    let t%s: %s = new { %s: \"%s@%s\" };", q, r.Item.Name, typeField(r.Item.Name, r.Origin), r.Item.Name, r.Origin))
-					emit(fmt.Sprintf("    let %s = t%s.%s;", q, q, typeField(r.Item.Name, r.Origin)))
+					emit(fmt.Sprintf("%slet t%s: %s = new { %s: \"%s@%s\" };", in, q, r.Item.Name, typeField(r.Item.Name, r.Origin), r.Item.Name, r.Origin))
+					emit(fmt.Sprintf("%s%s%s = t%s.%s;", in, set, q, q, typeField(r.Item.Name, r.Origin)))
 				}
 				parts = append(parts, q)
+			}
+			if set == "" {
+				emit("    }")
+				// the block has ended: the names mean the globals again
+				for i, n := range again {
+					q := fmt.Sprintf("r_%s_%d", it.Name, i)
+					emit(fmt.Sprintf("    let %s = %s;", q, n))
+					parts = append(parts, q)
+				}
 			}
 			// the singleton logs are read last: after every callee has run
 			for _, s := range sings {
@@ -414,16 +509,39 @@ func Render(g *Graph, lk *Link) Rendered {
 		}
 		if mi == 0 {
 			emit("fn main() {")
+			mainItem := Item{Name: "main", Kind: "fn"}
+			form := g.shadowForm(mainItem)
+			shadows := lk.shadowNames(g, m.Name)
+			in := "    "
+			if form == "block" && len(shadows) > 0 {
+				emit("    {")
+				in = "        "
+			}
+			isShadow := map[string]bool{}
+			for _, n := range shadows {
+				isShadow[n] = true
+				emit(fmt.Sprintf("%slet %s = \"%s\";", in, n, localText(m.Name, "main", n)))
+			}
+			var again []string
 			for i, b := range lk.mainPrints(g) {
 				if b.Item.Kind == "fn" && g.throws() {
 					// statement form of try: the handler assigns to a local of main
-					emit(fmt.Sprintf("    let m%d = \"\";", i))
-					emit(fmt.Sprintf("    try { m%d = %s(%s); } catch e { m%d = \"!\" + e.message; }", i, b.Item.Name, g.cbArg(b.Item, nil), i))
-					emit(fmt.Sprintf("    println(\"%s=\" + m%d);", b.Item.Name, i))
+					emit(fmt.Sprintf("%slet m%d = \"\";", in, i))
+					emit(fmt.Sprintf("%stry { m%d = %s(%s); } catch e { m%d = \"!\" + e.message; }", in, i, b.Item.Name, g.callArgs(lk, b, nil), i))
+					emit(fmt.Sprintf("%sprintln(\"%s=\" + m%d);", in, b.Item.Name, i))
 				} else if b.Item.Kind == "fn" {
-					emit(fmt.Sprintf("    println(\"%s=\" + %s(%s));", b.Item.Name, b.Item.Name, g.cbArg(b.Item, nil)))
+					emit(fmt.Sprintf("%sprintln(\"%s=\" + %s(%s));", in, b.Item.Name, b.Item.Name, g.callArgs(lk, b, nil)))
 				} else {
-					emit(fmt.Sprintf("    println(\"%s=\" + %s);", b.Item.Name, b.Item.Name))
+					emit(fmt.Sprintf("%sprintln(\"%s=\" + %s);", in, b.Item.Name, b.Item.Name))
+					if in != "    " && isShadow[b.Item.Name] {
+						again = append(again, b.Item.Name)
+					}
+				}
+			}
+			if in != "    " {
+				emit("    }")
+				for _, n := range again {
+					emit(fmt.Sprintf("    println(\"%s=\" + %s);", n, n))
 				}
 			}
 			for _, s := range m.sings() {
@@ -504,6 +622,14 @@ func Describe(g *Graph) string {
 	}
 	if g.CbForm == "lit" {
 		parts = append(parts, "(the function values are function literals `fn() -> str { k() }`)")
+	}
+	switch g.Shadow {
+	case "let":
+		parts = append(parts, "(every function has locals named like the globals its module sees)")
+	case "param":
+		parts = append(parts, "(every function has parameters named like the globals its module sees)")
+	case "block":
+		parts = append(parts, "(every function makes its calls inside a block with locals named like the globals its module sees)")
 	}
 	return strings.Join(parts, "  ")
 }
